@@ -247,6 +247,9 @@ func intRange(t types.Type) (string, string) {
 var typeKeyCache = map[string]string{}
 
 func typeKey(t types.Type) string {
+	if b, ok := t.(*types.Basic); ok && b.Kind() != types.Invalid && int(b.Kind()) < len(types.Typ) && types.Typ[b.Kind()] != nil {
+		t = types.Typ[b.Kind()]
+	}
 	s := types.TypeString(t, func(p *types.Package) string { return p.Name() })
 	if k, ok := typeKeyCache[s]; ok {
 		return k
